@@ -136,6 +136,7 @@ func (m *FloodSub) Execute(ctx context.Context) error {
 					}
 				}
 				m.mtx.Unlock()
+				verifGate("floodsub.sessionEnded", m, s.tpl)
 				// }
 			}()
 			// if s.initiator {
@@ -303,6 +304,7 @@ func (m *FloodSub) AddPeerStream(
 	// }
 	m.incSessions = append(m.incSessions, sh)
 	m.mtx.Unlock()
+	verifGate("floodsub.peerAdded", m, tpl)
 	m.wake()
 }
 
